@@ -93,7 +93,7 @@ fn run_probe(db: &Path, cfg_file: &Path, keys_file: &Path, absolute: bool) -> Pr
     if absolute {
         cmd.arg("absolute");
     }
-    let mut child = match cmd.stdout(Stdio::piped()).stderr(Stdio::piped()).spawn() {
+    let mut child = match crate::util::spawn_child(cmd.stdout(Stdio::piped()).stderr(Stdio::piped())) {
         Ok(c) => c,
         Err(e) => return Probe { out: None, status: format!("spawn failed: {e}") },
     };
